@@ -550,6 +550,7 @@ def c20(ctx):
             print(f"KNOWN-FINDING: property={ctx.pid} {e['what']}", flush=True)
     cov = {"evaluations": m["evaluations"], "distinct_nontrivial": len(m["fps"]), "rule": rule, "samples": m["samples"][:10], "classes": m["classes"], "workers": workers,
            "replay_tier_inputs": nrep}
+    cov.update(m["extra"])
     if not ctx.violations and not getattr(ctx, "broken", False):
         shutil.rmtree(wd, ignore_errors=True)
     return P.finish(ctx, "exploration", cov, assumptions, 20)
